@@ -1,0 +1,16 @@
+//go:build verif
+
+package kafka
+
+// Hooks for the /verif harness (build tag `verif` only), property C14: accessors to the unexported pure helpers
+// of groupbalancer.go.
+
+// VerifFindMembersByTopic exposes findMembersByTopic.
+func VerifFindMembersByTopic(members []GroupMember) map[string][]GroupMember {
+	return findMembersByTopic(members)
+}
+
+// VerifFindPartitions exposes findPartitions.
+func VerifFindPartitions(topic string, partitions []Partition) []int {
+	return findPartitions(topic, partitions)
+}
